@@ -358,7 +358,7 @@ theorem eval_sim (e : Expr) (τ : Ty) (h : e.ty = some τ) : Sim τ (eval e) (re
         · simp only [eval, ref, hea, hra, ok_bind]
           cases p with
           | text t =>
-            exact ⟨rfl, fixedLen_canon t hpc n, by rw [Part.cells, fixedLen_cells t hpc.2, ← hpcells]; rfl⟩
+            exact ⟨rfl, fixedLen_canon t n, by rw [Part.cells, fixedLen_cells t hpc.2, ← hpcells]; rfl⟩
           | chunk ch =>
             refine ⟨rfl, ?_, by rw [Part.cells, chunk_fixedLen_cells, ← hpcells]; rfl⟩
             unfold Chunk.fixedLen
